@@ -1013,3 +1013,52 @@ func vPostedDocumentSigned(b64doc string) bool {
 }
 
 func vContains(s, sub string) bool { return strings.Contains(s, sub) }
+
+// ---- C17 natives ----
+
+func vTraceStart(sp *SAMLServiceProvider)           {}
+func vTraceCut(published *dsig.SigningContext)      {}
+func vTraceEnd()                                    {}
+func vGlobalWritesReset()                           {}
+func vGlobalWrites() int                            { return 0 }
+
+var vxRaceSP *SAMLServiceProvider
+
+// vhC17SPNative: all goroutines of one round share this SP.
+func vhC17SPNative() *SAMLServiceProvider { return vxRaceSP }
+
+// vRaceFree (native): stress the body from `threads` goroutines on a fresh SP, many rounds; the race
+// detector (replay binary built with -race for this harness) reports a data race if there is one.
+func vRaceFree(threads int, body func()) bool {
+	for round := 0; round < 300; round++ {
+		vxRaceSP = &SAMLServiceProvider{Clock: dsig.NewFakeClockAt(time.Date(2030, 1, 1, 0, 0, 0, 0, time.UTC)),
+			SPKeyStore: vxKeyStore("sp"), SignAuthnRequestsAlgorithm: "http://www.w3.org/2001/04/xmldsig-more#rsa-sha512"}
+		var wg sync.WaitGroup
+		start := make(chan struct{})
+		for g := 0; g < threads+2; g++ {
+			wg.Add(1)
+			go func() {
+				defer wg.Done()
+				<-start
+				body()
+			}()
+		}
+		close(start)
+		wg.Wait()
+	}
+	return true
+}
+
+// vConfigSig (native): the exported configuration fields, rendered
+func vConfigSig(sp *SAMLServiceProvider) string {
+	v := reflect.ValueOf(sp).Elem()
+	var b strings.Builder
+	for i := 0; i < v.NumField(); i++ {
+		f := v.Type().Field(i)
+		if f.PkgPath != "" {
+			continue
+		}
+		fmt.Fprintf(&b, "%s=%v;", f.Name, v.Field(i).Interface())
+	}
+	return b.String()
+}
